@@ -25,6 +25,7 @@ pub fn c19_eval(depth: u8, res: &[(u64, f64); 4], h: u64, dx: f64, dy: f64) -> u
   let nh = spec_n_hash(depth);
   let layer = hp::nested::get_or_create(depth);
   let map = layer.neighbours(h, true);
+  let vh = plane_cell_vertices(depth, h);
   let mut err = 0u32;
   let mut sum = 0.0f64;
   let mut has_h = false;
@@ -35,12 +36,8 @@ pub fn c19_eval(depth: u8, res: &[(u64, f64); 4], h: u64, dx: f64, dy: f64) -> u
     if !(w >= 0.0 && w <= 1.0) && err == 0 { err = 2; }
     sum += w;
     if c == h { has_h = true; }
-    let mut found = c == h;
-    let mut d = 0u8;
-    while d < 8 {
-      if let Some(v) = map.get(c19_dir(d)) { if *v == c { found = true; } }
-      d += 1;
-    }
+    // the cell is h or touches h (plane oracle: shares a canonical vertex), independently of the crate's neighbour tables
+    let found = c == h || (c < nh && plane_n_shared(&vh, &plane_cell_vertices(depth, c)) > 0);
     if !found && err == 0 { err = 3; }
     k += 1;
   }
